@@ -61,6 +61,23 @@ func c03Datasets() map[string][]string {
 			ev(3, 2000, `"v":4,"f":4.5,"g":"B","m":"bar","x":10`),
 			ev(4, 61000, `"v":5,"f":5.5,"g":"A","m":"foo","x":2`),
 		},
+		// a decimal column whose first value of a block is a fraction and whose later values are larger whole numbers (the
+		// block's range index starts as a decimal range and has to keep growing)
+		"fracwhole": {
+			ev(0, 0, `"v":1,"f":2.5,"g":"A","m":"foo"`),
+			ev(1, 1000, `"v":2,"f":5,"g":"B","m":"foo"`),
+			ev(2, 1500, `"v":3,"f":12,"g":"A","m":"bar"`),
+			ev(3, 2000, `"v":4,"f":7,"g":"B","m":"bar"`),
+			ev(4, 61000, `"v":5,"f":0.125,"g":"A","m":"foo"`),
+		},
+		// events that arrive out of time order: a later block of a segment holds events older than everything before it
+		"late": {
+			ev(0, 2000, `"v":1,"f":1.5,"g":"A","m":"foo bar"`),
+			ev(1, 3000, `"v":2,"f":-2.25,"g":"B","m":"foo"`),
+			ev(2, 0, `"v":3,"f":100.5,"g":"A","m":"BAR baz"`),
+			ev(3, 1000, `"v":4,"f":0.125,"g":"B","m":"qux"`),
+			ev(4, 61000, `"v":5,"f":7.5,"g":"A","m":"foo qux"`),
+		},
 		// spellings that differ only in case (equality is case-insensitive, dictionary words are not)
 		"case": {
 			ev(0, 0, `"v":1,"f":1.5,"g":"a","m":"Error"`),
@@ -85,6 +102,7 @@ var c03Queries = []c03Query{
 	{"* | sort v, f, id | fields id, v, f", true, "sort"}, {"* | sort -f, v | head 2", true, "sort"}, {"g=A | sort -v, id | fields id, v", true, "filter-sort"}, {"g=A | sort 2 v, id | fields id, v", true, "filter-sort"}, {"v>1 | sort f, id | fields id, f", true, "filter-sort"}, {"* | eval w=v*2 | where w>4 | fields id, w", false, "eval-where"},
 	{"* | dedup g | fields g", false, "dedup"}, {"* | top 1 g", false, "top"},
 	{"* | stats sum(x), avg(x), min(x), max(x)", false, "stats-mixed-column"}, {"g=A | stats sum(x), max(x)", false, "filter-stats-mixed-column"},
+	{"f>6", false, "filter-float-int-literal"}, {"f>=12", false, "filter-float-int-literal"}, {"f=12", false, "filter-float-int-literal"}, {"f<=5", false, "filter-float-int-literal"}, {"f>2", false, "filter-float-int-literal"},
 	{"g=a", false, "filter-str"}, {"g=B", false, "filter-str"}, {"m=error", false, "filter-str"}, {"m=ERROR", false, "filter-str"}, {"m!=error", false, "filter-str"},
 }
 
@@ -208,6 +226,11 @@ func c03Run(w *kernel.Worker, j *c03Job, rep *kernel.Report) (*Fail, error) {
 	}
 	var plan []planned
 	for _, q := range c03Queries {
+		if j.Dataset == "fracwhole" && q.Class == "filter-float-boundary" {
+			// whole numbers in a decimal column are stored as integers, and an integer-typed stored value against a decimal
+			// literal is C02's recorded finding (int-vs-decimal); this dataset is asked with integer literals only
+			continue
+		}
 		plan = append(plan, planned{q, T0 - 5, T0 + 100000})
 	}
 	var tss []int64
@@ -412,12 +435,15 @@ func C03() int {
 			} else {
 				lays = append(StdLayouts(5), Layout{"r-r-r-r-r", []int{2, 2, 2, 2, 2}}, Layout{"f-r-f-r-f", []int{1, 2, 1, 2, 1}}, Layout{"0-2-0-0-2", []int{0, 2, 0, 0, 2}})
 			}
-			names := []string{"plain", "dups", "case", "mixnum"}
+			names := []string{"plain", "dups", "case", "mixnum", "fracwhole", "late"}
 			for _, ds := range names {
 				for _, l := range lays {
 					for _, c := range []int{2, 501} {
 						for _, p := range []string{"off", "on"} {
 							for _, pr := range []int{1, 4} {
+								if (ds == "fracwhole" || ds == "late") && rep.Tier != "thorough" && (c != 501 || pr != 1) {
+									continue // quick: the two added datasets in the default dictionary limit on one processor
+								}
 								emit(c03Job{Dataset: ds, Config: c03Config{Layout: l, Card: c, PQS: p, Procs: pr}})
 								if c == 501 && p == "off" {
 									emit(c03Job{Dataset: ds, Config: c03Config{Layout: l, Card: c, PQS: p, Procs: pr, SortIdx: true}})
